@@ -62,7 +62,7 @@ theorem realloc_err_frame {E s s' p osz nsz nal} (post : ReallocPost E s s' p os
 `MIN_ALIGN`-aligned region in a used part that was disjoint from the block stays in a used part -/
 theorem dealloc_contract {E p sz oal} (s : St) (hE : EnvOK E) (h : ArenaWF E s.a) (hb : BlockOK s.a p sz oal) :
     (dealloc E p sz s).2 = .ok () ∧ ArenaWF E (dealloc E p sz s).1.a ∧ (dealloc E p sz s).1.mem = s.mem ∧
-    ∀ b bn, 0 < bn → InChunk s.a b bn → s.a.M ∣ b → Disj b bn p sz → InChunk (dealloc E p sz s).1.a b bn := by
+    ∀ b bn, 0 < bn → InChunk s.a b bn → s.a.M ∣ b → (sz = 0 ∨ Disj b bn p sz) → InChunk (dealloc E p sz s).1.a b bn := by
   obtain ⟨h1, h2, h3, _, h5, _, h7⟩ := dealloc_spec (p := p) (sz := sz) s hE h (cur_block hE h hb)
   refine ⟨h1, h2, h3, ?_⟩
   intro b bn hbn ⟨x, hx, hx1, hx2⟩ hMb hd
